@@ -122,7 +122,7 @@ def execute(chooser, ops, profile, board_kwargs=None):
                 viols.append((f"leftover:{ckey}", f"{where}: lines left unread after the "
                               f"exchange: {left}"))
             if kind == "query" and isinstance(ret, str):
-                expect = board_expected(board, req_0)
+                expect = board_expected(board, req_0, board_kwargs)
                 if expect is None:
                     if ret != "":
                         viols.append((f"data:{ckey}", f"{where}: nothing was sent but query "
@@ -146,9 +146,10 @@ def execute(chooser, ops, profile, board_kwargs=None):
     return viols, obs, states
 
 
-def board_expected(board, req_index):
+def board_expected(board, req_index, board_kwargs=None):
     """Data line the board produced for its request number req_index (0-based), or None."""
-    probe = LegacyBoard(version=board.version, banner=board.banner)
+    probe = LegacyBoard(**(board_kwargs or {}))
+    probe.version, probe.banner = board.version, board.banner
     lines = None
     for request in board.requests[:req_index + 1]:
         lines = probe.handle(request)
@@ -158,19 +159,21 @@ def board_expected(board, req_index):
 # ---------------------------------------------------------------------------------------
 
 def _explore_history(args):
-    ops, bound, profile_name = args
+    ops, bound, profile_name = args[:3]
+    board_kwargs = args[3] if len(args) > 3 else None
     profile = PROFILE if profile_name == "single" else SEQ_PROFILE
     part = core.Part()
     stats = Stats()
 
     def run(chooser):
-        viols, obs, states = execute(chooser, ops, profile)
+        viols, obs, states = execute(chooser, ops, profile, board_kwargs)
         part.count("transitions", len(ops))
         for state in states:
             part.add("states", core.digest(state))
         for key, msg in viols:
             part.violation(key, msg, {"kind": "history", "ops": [list(o) for o in ops],
-                                      "profile": profile_name, "vector": chooser.vector()})
+                                      "profile": profile_name, "vector": chooser.vector(),
+                                      "board": board_kwargs})
         if chooser.deviations():
             part.count("faulted_executions")
             if chooser.deviations() == bound and part.counters["faulted_executions"] % 97 == 1:
@@ -228,6 +231,14 @@ def run(ctx):
     else:
         for trio in itertools.product(SEQ3_ALPHABET[:5], repeat=3):
             jobs.append((tuple(t + (True,) for t in trio), 2, "seq"))
+    # data lines that look like protocol tokens: a board whose nickname begins with "OK"
+    for nick in ("OK", "OKAPI", "OK 2"):
+        board = {"nickname": nick}
+        q_t = ("query", "QT\r")
+        jobs.append((((q_t + (True,)),), 2, "single", board))
+        for other in ALPHABET:
+            jobs.append(((q_t + (True,), other + (False,)), 1, "seq", board))
+            jobs.append(((other + (True,), q_t + (False,), ("query", "QB\r", False)), 1, "seq", board))
     # long sessions: dozens of requests on one port (a counter, a buffer, a drift that only
     # shows after many exchanges), every single deviation at every point of the session
     steady = [op for op in ALPHABET if op[1].strip() != "RB"]
@@ -249,7 +260,8 @@ def run(ctx):
         "evaluations": execs,
         "distinct_nontrivial": part.counters.get("faulted_executions", 0),
         "rule": "every history (1 request x verbose on/off, all ordered pairs, triples over a "
-                "sub-alphabet, sessions of 40 and 61 (150) requests with one deviation anywhere) x "
+                "sub-alphabet, sessions of 40 and 61 (150) requests with one deviation anywhere, "
+                "nickname queries against boards whose nickname begins with OK) x "
                 "every vector of environment answers with at most the stated "
                 "number of deviations; non-trivial = execution with at least one deviation "
                 "(empty reads, silence, error line, raised exception); each (history, vector) "
@@ -285,7 +297,7 @@ def replay(case):
     profile = PROFILE if case["profile"] == "single" else SEQ_PROFILE
 
     def run(chooser):
-        return execute(chooser, ops, profile)
+        return execute(chooser, ops, profile, case.get("board"))
 
     (viols, _obs, _states), _ch = run_vector(run, [tuple(v) for v in case["vector"]])
     return [msg for _key, msg in viols]
